@@ -23,7 +23,7 @@ RULE = ("Hypothesis-generated operation histories on an in-memory dataset (n<=40
         "values on a dyadic grid with NaN/inf, bounds tying with data); non-trivial = "
         "history with >=2 applies in which a setting that had been applied was later "
         "changed or removed; distinct = sha1 of the spec")
-BUDGET = {"quick": 960, "thorough": 20000}
+BUDGET = {"quick": 2880, "thorough": 40000}
 ESSENTIAL = ["op:range", "op:del_range", "op:poly_add", "op:poly_mod", "op:poly_rm",
              "op:limit", "op:manual", "op:reset", "op:enable", "op:invalid",
              "limit-active", "range-tie-with-data", "range-reversed"]
